@@ -19,7 +19,7 @@ import numbers
 
 import numpy as np
 
-from ..sym import SymReal, SymBool, Unsupported
+from ..sym import SymReal, SymBool, Unsupported, has_ctx
 
 
 def _is_sym(v):
@@ -45,8 +45,9 @@ def _has_sym(a):
 
 
 def _norm_dtype(A):
-    """Keep float dtype when possible, else object."""
-    if A.dtype == object:
+    """Keep float dtype when possible, else object.  While a symbolic context is active every
+    numeric array is object-typed (see NpShim), so results are not narrowed back to float."""
+    if A.dtype == object and not has_ctx():
         if not any(_is_sym(v) for v in A.flat):
             try:
                 return A.astype(float)
@@ -427,7 +428,7 @@ class ShimCSR:
                 raise ValueError("sparse @ N-d array")
             if a.shape[1] != other.shape[0]:
                 raise ValueError("dimension mismatch")
-            if a.dtype == object or other.dtype == object:
+            if a.dtype == object or other.dtype == object or has_ctx():
                 return _omatmul(a.astype(object), other.astype(object))
             return a @ other
         if isinstance(other, (list, tuple)):
@@ -441,7 +442,7 @@ class ShimCSR:
                 return NotImplemented
             if other.shape[-1] != a.shape[0]:
                 raise ValueError("dimension mismatch")
-            if a.dtype == object or other.dtype == object:
+            if a.dtype == object or other.dtype == object or has_ctx():
                 return _omatmul(other.astype(object), a.astype(object))
             return other @ a
         if _is_scipy(other):
@@ -454,6 +455,13 @@ class ShimCSR:
 
 def _omatmul(a, b):
     """matmul for object arrays (1-D or 2-D operands) without np.matmul's object quirks."""
+    r = _omatmul0(a, b)
+    if has_ctx() and isinstance(r, np.ndarray) and r.dtype != object:
+        r = r.astype(object)
+    return r
+
+
+def _omatmul0(a, b):
     a1 = a.ndim == 1
     b1 = b.ndim == 1
     A = a.reshape(1, -1) if a1 else a
@@ -562,6 +570,8 @@ class SpShim:
     hstack = staticmethod(hstack)
 
     def __getattr__(self, name):
+        if name.startswith("__"):
+            raise AttributeError(name)
         raise Unsupported(f"scipy.sparse.{name} is not covered by the shim")
 
 
